@@ -253,6 +253,8 @@ def run(ctx, replay=None):
         "the property does not say what a yellow or red packet does to the committed bucket: the specification accepts any "
         "reported committed content that was not raised by such a packet; green conformance to (CIR, CBS) is proved for all "
         "these choices by TLC (GreenConformsToCIR)",
+        "packets are served one at a time: the next packet is examined when its predecessor has been released (with a peak "
+        "rate: after the predecessor's size/peak spacing), which is what makes consecutive departures size/peak apart",
         "PBS >= 1 and CBS >= 1; packet sizes >= 1"])
 
 
